@@ -259,6 +259,43 @@ def ob_povm_on_ensemble_zero(sys, which):
                 eager_ite=True, max_paths=60, expect_nonlinear=True)
 
 
+def ob_mm_zero(sys, m1, m2):
+    """two measurement processes in a row where, GIVEN the first outcome, some second outcome has probability exactly zero (the same
+    projective measurement twice; a projective measurement followed by the three-outcome process): the joint distribution is
+    p(x1) p(x2|x1) -- each branch keeps its own weight -- for a symbolic input state, chain == bracketed == Kraus reference"""
+    o1 = objlib.mprocess_kraus(sys)[m1]
+    o2 = objlib.mprocess_kraus(sys)[m2]
+
+    def ref_joint(rho):
+        out = []
+        for k1 in o1:
+            for k2 in o2:
+                ks = [b @ a for a in k1 for b in k2]
+                out.append(re_(refs.tr(apply_kraus(ks, rho))))
+        return out
+
+    def assume(I):
+        v = symbolic_state(I, sys)
+        rho = dm(v, sys)
+        first = [re_(refs.tr(apply_kraus(k1, rho))) for k1 in o1]
+        return ge_all(first, 0.05)
+
+    def run(I):
+        from quara.objects.operators import compose_qoperations as comp
+        c = qenv.csys(sys)
+        M1 = objlib.mprocesses(sys)[m1]
+        M2 = objlib.mprocesses(sys)[m2]
+        v = symbolic_state(I, sys)
+        st = mk_state(c, v)
+        ref = ref_joint(dm(v, sys))
+        out = []
+        for name, ens in (("chain", comp(M2, M1, st)), ("bracketed", comp(comp(M2, M1), st))):
+            out.append(Holds(f"{name}: shape == (outcomes of M1, outcomes of M2)", tuple(ens.prob_dist.shape) == (len(o1), len(o2))))
+            out.append(Eq(f"{name}: joint probabilities == Tr(K2 K1 rho K1† K2†)", ens.prob_dist.ps, np.array(ref, dtype=object), 1e-9))
+        return out
+    return FnOb(state_inputs(sys), run, assume=assume, eager_ite=True, max_paths=200, expect_nonlinear=True)
+
+
 def ens_signature(ens):
     """flat list of (p_x, numerators, denominator) describing a StateEnsemble or a distribution"""
     if type(ens).__name__ == "MultinomialDistribution":
@@ -582,6 +619,7 @@ def obligations(tier):
     out += specs("C06.povm_gate", [{"sys": "Q1", "pidx": 3, "gname": "ampdamp"}, {"sys": "Q1", "pidx": 4, "gname": "S"}, {"sys": "T1", "pidx": 9, "gname": "mix"}], ob_povm_gate)
     out += specs("C06.mprocess_state", [{"sys": "Q1", "mname": m} for m in ["z_then_U", "trine3", "reset2"]] + tiers(tier, [], [{"sys": "T1", "mname": "proj_then_U"}]), ob_mprocess_state, 3)
     out += specs("C06.mprocess_zero", [{"sys": "Q1"}], ob_mprocess_zero)
+    out += specs("C06.mm_zero", [{"sys": "Q1", "m1": "zproj", "m2": "zproj"}, {"sys": "Q1", "m1": "zproj", "m2": "z_then_U"}], ob_mm_zero, 4)
     out += specs("C06.povm_on_ensemble_zero", [{"sys": "Q1", "which": w} for w in (0, 1)], ob_povm_on_ensemble_zero, 2)
     out += specs("C06.mprocess_mprocess", [{"sys": "Q1", "m2": "trine3", "m1": "z_then_U"}] + tiers(tier, [], [{"sys": "Q1", "m2": "z_then_U", "m1": "trine3"}]), ob_mm, 4)
     # CHAINS_LONG[1:] (two measurements followed by a final POVM, 4-5 operations) exhaust a 200 s exploration budget on the divisions
